@@ -26,6 +26,51 @@ pub fn usable(v: &str) -> bool {
     max_digit_run(v) <= 18
 }
 
+/// Like `usable`, but a digit run may be longer than 18 characters as long
+/// as what is left after its leading zeros is not: the numeric value of
+/// such a run is unambiguous ("00000000000000000002" is 2) and fits.
+pub fn usable_padded(v: &str) -> bool {
+    if v.starts_with('=') {
+        return false;
+    }
+    if v.contains(|c| matches!(c, '-' | '<' | '>' | '{' | '}')) {
+        return false;
+    }
+    max_significant_digits(v) <= 18
+}
+
+pub fn max_significant_digits(v: &str) -> usize {
+    let mut best = 0;
+    let mut cur = 0;
+    for b in v.bytes() {
+        if b.is_ascii_digit() {
+            if cur > 0 || b != b'0' {
+                cur += 1;
+            }
+            best = best.max(cur);
+        } else {
+            cur = 0;
+        }
+    }
+    best
+}
+
+/// Pad one digit run of `v` with leading zeros to 19..=40 characters (the
+/// value is unchanged; length-based shortcuts in a number parser are not).
+/// Returns `v` itself when it has no digit run.
+pub fn pad_zeros(r: &mut Rng, v: &str) -> String {
+    let mut t = split_tokens(v);
+    let idxs: Vec<usize> = (0..t.len()).filter(|&i| t[i].bytes().all(|b| b.is_ascii_digit())).collect();
+    if idxs.is_empty() {
+        return v.to_string();
+    }
+    let i = *r.pick(&idxs);
+    let total = *r.pick(&[19usize, 20, 21, 24, 32, 40]);
+    let pad = total.saturating_sub(t[i].len()).max(1);
+    t[i] = format!("{}{}", "0".repeat(pad), t[i]);
+    t.concat()
+}
+
 pub fn max_digit_run(v: &str) -> usize {
     let mut best = 0;
     let mut cur = 0;
